@@ -22,6 +22,8 @@ var ctxRefs = []string{
 	"@node.visit_count", "@node.uuid", "@ticket", "@ticket.topic", "@ticket.assignee",
 	// fields and globals whose keys are also function names
 	"@fields.code", "@fields.count", "@(fields.date)", "@fields.title", "@globals.text", "@(contact.fields.code)", "@parent.fields.title",
+	// the run's own view of its contact
+	"@run.contact.fields.age", "@(run.contact.fields.gender)", "@run.contact.name",
 	// a field and a global with the same key in one template
 	"@fields.code of @globals.code", "@globals.code for @fields.code", "@(globals.code & fields.code)",
 	// deprecated context values (each access logs a warning), also twice in a row
